@@ -7,6 +7,7 @@ open GA.Gen.Mem
 @[ga_bridge] theorem fromMutSliceProvenanceOk_eq : fromMutSliceProvenanceOk = true := by bridge_bool [fromMutSliceProvenanceOk]
 @[ga_bridge] theorem chunksMutProvenanceOk_eq : chunksMutProvenanceOk = true := by bridge_bool [chunksMutProvenanceOk]
 @[ga_bridge] theorem flatMutProvenanceOk_eq : flatMutProvenanceOk = true := by bridge_bool [flatMutProvenanceOk]
+@[ga_bridge] theorem transmuteViaUnion_eq : transmuteViaUnion = true := by bridge_bool [transmuteViaUnion]
 @[ga_bridge] theorem tryFromMutSliceViaFromMutSlice_eq : tryFromMutSliceViaFromMutSlice = true := by bridge_bool [tryFromMutSliceViaFromMutSlice]
 
 /-- every function of the const API is declared `const fn` -/
